@@ -9,18 +9,19 @@ Open Scope Z_scope.
 Section Exec.
 Variable p : program.
 Variable rk : node -> nat.
+Variable s0 : state.
 Hypothesis Hrk : forall n e d, alookup p n = Some e -> In d (expr_reads e) -> (rk d < rk n)%nat.
 Hypothesis Hproj : forall n e d, alookup p n = Some e -> nkind n = KProjection -> In d (expr_reads e) ->
   is_fw_or_proj (nkind d) = true.
 
 (** * [MKeeps] *)
 Lemma MSolid_keep : forall Ex X inp stk s s' d,
-  MInvE p rk Ex X inp s -> MonoR stk s s' -> MKeeps s s' -> get_info s d <> None -> MSolid s d -> MSolid s' d.
+  MInvE p rk s0 Ex X inp s -> MonoR stk s s' -> MKeeps s s' -> get_info s d <> None -> MSolid s d -> MSolid s' d.
 Proof.
   intros Ex X inp stk s s' d HI HM HK Hd HS.
   assert (Hf : forall y, tpath s d y -> old_fwd s' y = old_fwd s y).
   { intros y Hy. pose proof (MSolid_path _ _ _ HS Hy) as Sy.
-    pose proof (tpath_stored _ _ _ _ _ _ _ _ HI Hd Hy) as Hys.
+    pose proof (tpath_stored _ _ _ _ _ _ _ _ _ HI Hd Hy) as Hys.
     unfold old_fwd. destruct (get_info s y) as [i|] eqn:Hi; [|congruence].
     destruct (HK y i Hi Sy) as [i' [Hi' (_ & F & _)]]. rewrite Hi', F. reflexivity. }
   destruct HS as [HG HR]. split.
@@ -42,7 +43,7 @@ Proof.
 Qed.
 
 Lemma MKeeps_trans : forall Ex X inp stk s s1 s2,
-  MInvE p rk Ex X inp s -> MonoR stk s s1 -> MKeeps s s1 -> MKeeps s1 s2 -> MKeeps s s2.
+  MInvE p rk s0 Ex X inp s -> MonoR stk s s1 -> MKeeps s s1 -> MKeeps s1 s2 -> MKeeps s s2.
 Proof.
   intros Ex X inp stk s s1 s2 HI HM K1 K2 d i Hi HS.
   destruct (K1 d i Hi HS) as [i1 [Hi1 (A1 & A2 & A3 & A4)]].
@@ -109,10 +110,10 @@ Proof.
 Qed.
 
 Lemma MInv_set_computed : forall Ex X Y inp s n e l v fr bp rc,
-  MInvE p rk Ex X inp s -> (forall x, Ex x -> x = n) ->
+  MInvE p rk s0 Ex X inp s -> (forall x, Ex x -> x = n) ->
   is_mexec_kind (nkind n) = true -> alookup p n = Some e ->
   evr (frR fr) e v l -> (forall d, In d (map fst (fr_callees fr)) <-> In d l) ->
-  MFrOk s n fr -> ~ sverified s n ->
+  MFrOk s n fr -> ~ sverified s n -> In n (s_log s) ->
   ((rc = true /\ get_info s n <> None) \/ (rc = false /\ get_info s n = None)) ->
   (get_info s n <> None -> MSolid s n -> Unch s n v (fr_tfc fr)) ->
   (~ Unch s n v (fr_tfc fr) ->
@@ -120,10 +121,10 @@ Lemma MInv_set_computed : forall Ex X Y inp s n e l v fr bp rc,
      (forall b x a, tpath s b x -> In n (old_fwd s x) -> ~ In x (X ++ Y) -> thru b -> In b (old_fwd s a) -> sdirty s a b)) ->
   (forall y, In y Y -> nkind y = KProjection /\ y <> n /\
      exists i ov t, get_info s y = Some i /\ alookup (i_obs i) n = Some (ov, t) /\ ov <> v) ->
-  MInv p rk (X ++ Y) inp (set_computed s n v fr bp rc) /\
+  MInv p rk s0 (X ++ Y) inp (set_computed s n v fr bp rc) /\
   (~ MSolid s n \/ get_info s n = None -> MKeeps s (set_computed s n v fr bp rc)).
 Proof.
-  intros Ex X Y inp s n e l v fr bp rc HI HEx Hk He Hev Hkl Hfr Hnv Hrc Hsame Hdirt HY.
+  intros Ex X Y inp s n e l v fr bp rc HI HEx Hk He Hev Hkl Hfr Hnv Hlogn Hrc Hsame Hdirt HY.
   set (s' := set_computed s n v fr bp rc).
   set (keys := map fst (fr_callees fr)) in *.
   set (ni := sc_info s n v fr bp).
@@ -147,12 +148,12 @@ Proof.
   assert (Hkrk : forall d, In d keys -> (rk d < rk n)%nat) by (intros d Hd0; eapply Hrk; eauto).
   assert (Hself : ~ In n keys) by (intro K; apply Hkrk in K; lia).
   assert (Hnd : forall b, ~ sdirty s' n b).
-  { intros b K. apply Hd in K. destruct K as [K1 K2]. pose proof (mi_dirty_edge _ _ _ _ _ _ HI _ _ K1) as Hb.
+  { intros b K. apply Hd in K. destruct K as [K1 K2]. pose proof (mi_dirty_edge _ _ _ _ _ _ _ HI _ _ K1) as Hb.
     destruct Hrc as [[-> _]|[_ Hn]]; [apply K2; auto|]. unfold old_fwd in Hb. rewrite Hn in Hb. destruct Hb. }
   assert (Hdne : forall a b, a <> n -> (sdirty s' a b <-> sdirty s a b)).
   { intros a b Hne. rewrite Hd. split; [tauto|]. intro K. split; [exact K|]. intros (_ & K1 & _). contradiction. }
   assert (Hcaller_stored : forall a, In n (old_fwd s a) -> get_info s n <> None).
-  { intros a Ha. eapply (mi_target _ _ _ _ _ _ HI); eauto. }
+  { intros a Ha. eapply (mi_target _ _ _ _ _ _ _ HI); eauto. }
   assert (Hver : forall m, m <> n -> (sverified s' m <-> sverified s m)).
   { intros m Hm. unfold sverified. rewrite (Hgetne m Hm), Hts. reflexivity. }
   assert (Hvern : sverified s' n).
@@ -162,7 +163,7 @@ Proof.
   assert (Hfrk : forall a b, In b (old_fwd s a) -> (rk b < rk a)%nat) by (intros; eapply mfwd_rk; eauto).
   (* nodes of smaller rank than n: nothing changes below them *)
   assert (Hlow : forall d y, (rk d < rk n)%nat -> tpath s d y -> y <> n).
-  { intros d y Hr Hp ->. pose proof (tpath_rk _ _ Hrk _ _ _ _ _ _ HI Hp). lia. }
+  { intros d y Hr Hp ->. pose proof (tpath_rk _ _ Hrk _ _ _ _ _ _ _ HI Hp). lia. }
   assert (Hlow_path : forall d y, (rk d < rk n)%nat -> (tpath s' d y <-> tpath s d y)).
   { intros d y Hr. split; intro K.
     - eapply tpath_frame_inv; [exact K|]. intros z Hz. apply Hfwdne. eapply Hlow; eauto.
@@ -173,7 +174,7 @@ Proof.
   { intros d Hr HG. eapply MGood_frame; [exact HG| |].
     - intros y Hy. apply Hfwdne. eapply Hlow; eauto.
     - intros y z Hy Hz Hyz. apply Hlow_edge; [eapply Hlow; eauto| |exact Hyz].
-      intros ->. pose proof (tpath_rk _ _ Hrk _ _ _ _ _ _ HI Hy). pose proof (Hfrk _ _ Hz). lia. }
+      intros ->. pose proof (tpath_rk _ _ Hrk _ _ _ _ _ _ _ HI Hy). pose proof (Hfrk _ _ Hz). lia. }
   (* the new edges of n *)
   assert (Hentry : forall d, In d keys -> exists j, get_info s d = Some j /\ i_verified j = s_ts s /\
                      alookup (i_obs ni) d = Some (i_value j, i_tfc j) /\ d <> n).
@@ -185,7 +186,7 @@ Proof.
   { intros d Hdk. destruct (Hentry d Hdk) as [j (A & B & C & D)]. split.
     - exists ni, j, (i_value j), (i_tfc j). split; [exact Hgetn|]. split; [rewrite (Hgetne d D); exact A|].
       split; [exact C|]. split; [reflexivity|]. intros _ x. reflexivity.
-    - intros _. apply Hlow_good; [apply Hkrk; exact Hdk|]. apply (mi_G _ _ _ _ _ _ HI). exists j. auto. }
+    - intros _. apply Hlow_good; [apply Hkrk; exact Hdk|]. apply (mi_G _ _ _ _ _ _ _ HI). exists j. auto. }
   assert (HGn : MGood s' n).
   { apply MGood_intro. intros d Hdn. rewrite Hfwdn in Hdn. apply Hnew. exact Hdn. }
   (* a path of the new state from a node other than n is a path of the old state, possibly
@@ -206,7 +207,7 @@ Proof.
     intros Kn x. unfold ni, sc_info. cbn [i_tfc]. rewrite <- (U3 Kn x). apply E. exact Kn. }
   (* no verified node sits above n unless n reproduced what it recorded *)
   assert (Habove : forall b x, sverified s b -> tpath s b x -> In n (old_fwd s x) -> Unch s n v (fr_tfc fr)).
-  { intros b x Hb Hp Hx. pose proof (verified_Solid _ _ _ _ _ _ _ HI Hb) as Sb.
+  { intros b x Hb Hp Hx. pose proof (verified_Solid _ _ _ _ _ _ _ _ HI Hb) as Sb.
     pose proof (MSolid_path _ _ _ Sb Hp) as Sx.
     destruct (fw_or_thru n) as [Kn|Kn].
     - exfalso. apply Hnv. apply (proj2 Sx). apply mreach_direct; assumption.
@@ -261,9 +262,9 @@ Proof.
     intros m d. rewrite Hcal. destruct (node_eq_dec m n) as [->|Hne].
     + rewrite Hfwdn. split.
       * intros [[K1 K2]|[_ K]]; [|exact K]. exfalso. apply K2. split; [reflexivity|].
-        apply (mi_bwd _ _ _ _ _ _ HI). exact K1.
+        apply (mi_bwd _ _ _ _ _ _ _ HI). exact K1.
       * intro K. right. auto.
-    + rewrite (Hfwdne m Hne), (mi_bwd _ _ _ _ _ _ HI). split.
+    + rewrite (Hfwdne m Hne), (mi_bwd _ _ _ _ _ _ _ HI). split.
       * intros [[K _]|[K _]]; [exact K|contradiction].
       * intro K. left. split; [exact K|]. intros [K1 _]. contradiction.
   - (* mi_dirty_edge *)
@@ -303,7 +304,7 @@ Proof.
     + rewrite Hfwdn in Hab. destruct (Hnew b Hab) as [A B]. split; [exact A|]. intro K. apply MGood_GoodX. auto.
     + rewrite (Hfwdne a Hne) in Hab.
       assert (Hcl : ~ sdirty s a b) by (intro K; apply Hclean; apply Hdne; assumption).
-      destruct (mi_C _ _ _ _ _ _ HI a b Hab Hcl) as [Eab Gb].
+      destruct (mi_C _ _ _ _ _ _ _ HI a b Hab Hcl) as [Eab Gb].
       destruct (node_eq_dec b n) as [->|Hbn].
       * split; [|intros _; apply MGood_GoodX; exact HGn].
         apply Hinto; [exact Hne|exact Eab|].
@@ -312,7 +313,7 @@ Proof.
         apply Hlow_edge; auto.
   - (* mi_G *)
     intros x Hx. destruct (node_eq_dec x n) as [->|Hne]; [exact HGn|].
-    apply Hver in Hx; [|exact Hne]. pose proof (mi_G _ _ _ _ _ _ HI x Hx) as Gx.
+    apply Hver in Hx; [|exact Hne]. pose proof (mi_G _ _ _ _ _ _ _ HI x Hx) as Gx.
     intros y Hy. destruct (Hsplit x y Hy Hne) as [K|[K1 K2]].
     + destruct (node_eq_dec y n) as [->|Hyn]; [apply (HGn n (tp_refl _ _))|].
       apply Hedges; [exact Hyn|apply Gx; exact K|]. intro Hyc. eapply Habove; eauto.
@@ -324,11 +325,11 @@ Proof.
       - rewrite Hfwdn in H. destruct (Hentry d H) as [j (J1 & J2 & _ & J4)].
         pose proof (Hkrk d H) as Hr. apply (Hlow_path d y Hr) in H1.
         rewrite (Hfwdne y (Hlow d y Hr H1)) in HF. apply Hver1.
-        eapply (mi_T _ _ _ _ _ _ HI); [exists j; eauto|]. exists y. auto. }
+        eapply (mi_T _ _ _ _ _ _ _ HI); [exists j; eauto|]. exists y. auto. }
     intros x F Hx [y (A & B & C)]. destruct (node_eq_dec x n) as [->|Hne]; [eapply HTn; eauto|].
     apply Hver in Hx; [|exact Hne]. destruct (Hsplit x y A Hne) as [K|[K1 K2]].
     + destruct (node_eq_dec y n) as [->|Hyn]; [eapply HTn; eauto; constructor|].
-      rewrite (Hfwdne y Hyn) in B. apply Hver1. eapply (mi_T _ _ _ _ _ _ HI); [exact Hx|]. exists y. auto.
+      rewrite (Hfwdne y Hyn) in B. apply Hver1. eapply (mi_T _ _ _ _ _ _ _ HI); [exact Hx|]. exists y. auto.
     + eapply HTn; eauto.
   - (* mi_V *)
     intros m i Hi Hv. rewrite Hget in Hi. destruct (node_eqb_spec n m) as [<-|Hne].
@@ -338,7 +339,7 @@ Proof.
   - (* mi_PV *)
     intros x Hx. unfold s' in Hx. rewrite set_computed_visited in Hx. right.
     destruct (node_eq_dec x n) as [->|Hne]; [left; exact Hvern|].
-    destruct (mi_PV _ _ _ _ _ _ HI x Hx) as [K|[K|[Kin K]]]; [exfalso; apply Hne; apply HEx; exact K|left; apply Hver1; exact K|].
+    destruct (mi_PV _ _ _ _ _ _ _ HI x Hx) as [K|[K|[Kin K]]]; [exfalso; apply Hne; apply HEx; exact K|left; apply Hver1; exact K|].
     destruct (in_dec node_eq_dec x keys) as [Hk0|Hk0].
     + left. destruct (Hentry x Hk0) as [j (J1 & J2 & _)]. apply Hver1. exists j. auto.
     + right. split; [exact Kin|]. intros c Hc. apply Hcal in Hc. destruct Hc as [[Hc Hc2]|[_ Hc]]; [|contradiction].
@@ -347,14 +348,22 @@ Proof.
       * intro Hn. unfold s'. rewrite set_computed_visited. auto.
   - (* mi_X *)
     intros x Hx. apply in_app_or in Hx. destruct Hx as [Hx|Hx].
-    + destruct (mi_X _ _ _ _ _ _ HI x Hx) as [K1 K2]. split; [exact K1|].
+    + destruct (mi_X _ _ _ _ _ _ _ HI x Hx) as [K1 K2]. split; [exact K1|].
       destruct (node_eq_dec x n) as [->|Hne]; [left; exact Hvern|].
       destruct K2 as [K2|(cal & i & ci & v0 & t & A & B & C & D & E)]; [left; apply Hver1; exact K2|right].
       assert (Hcn : cal <> n) by (intros ->; apply Hnv; exists ci; auto).
       exists cal, i, ci, v0, t. rewrite (Hgetne x Hne), (Hgetne cal Hcn), Hts. auto.
     + destruct (HY x Hx) as (K1 & K2 & i & ov & t & A & B & C). split; [exact K1|right].
       exists n, i, ni, ov, t. rewrite (Hgetne x K2), Hgetn, Hts. split; [exact A|]. split; [exact B|].
-      split; [reflexivity|]. split; [reflexivity|]. unfold ni, sc_info. cbn [i_value]. congruence. }
+      split; [reflexivity|]. split; [reflexivity|]. unfold ni, sc_info. cbn [i_value]. congruence.
+  - (* mi_J *)
+    intros m Hm. unfold s' in Hm. rewrite set_computed_log in Hm. eapply mi_J; eauto.
+  - (* mi_U *)
+    intro m. destruct (node_eq_dec m n) as [->|Hne]; [left; exact Hvern|].
+    rewrite (Hgetne m Hne). destruct (mi_U _ _ _ _ _ _ _ HI m) as [K|K]; [left; apply Hver1; exact K|right; exact K].
+  - (* mi_O *)
+    intros m i Hi. unfold s'. rewrite set_computed_log. destruct (node_eq_dec m n) as [->|Hne]; [left; exact Hlogn|].
+    rewrite (Hgetne m Hne) in Hi. eapply mi_O; eauto. }
   (* MKeeps *)
   intros Hns d i Hi HS. destruct (node_eq_dec d n) as [->|Hne]; [destruct Hns; [contradiction|congruence]|].
   exists i. split; [rewrite (Hgetne d Hne); exact Hi|repeat split].
